@@ -71,6 +71,7 @@ func main() {
 	} else {
 		sum = core.Supervise(m, env)
 	}
+	core.RunPost(m.ID, env, sum)
 	code := core.Finish(m, env, sum, time.Since(start))
 	if code != 0 {
 		os.RemoveAll(env.WorkDir)
